@@ -59,6 +59,15 @@ fn main() {
                 }
             }
         }
+        "decode" => {
+            // debugging aid: decode a fuzzer input the way the fuzz target does
+            let fam = args.get(2).and_then(|s| Family::parse(s)).unwrap_or_else(|| usage());
+            let bytes = std::fs::read(&args[3]).unwrap();
+            match hv_sim::fuzzdec::decode(fam, true, &bytes) {
+                Some(case) => println!("{}", serde_json::to_string(&case).unwrap()),
+                None => println!("(input too short)"),
+            }
+        }
         "stats" => {
             let fam = args.get(2).and_then(|s| Family::parse(s)).unwrap_or_else(|| usage());
             let n: u32 = args.get(3).and_then(|s| s.parse().ok()).unwrap_or(1000);
